@@ -4,7 +4,10 @@ spec: ZSem (frames are heap objects with parent pointers; closures capture the f
 bind: programs over a deliberately tiny name pool {x,y,z} built from nested fn/defn/let/letseq/
       newScope/for/def/set, with closures bound to variables, returned by makers, collected in loops,
       stored in arrays, passed to higher-order functions and called after their creator returned;
-      validated by TLC against ZSem (SemTrace)
+      closures written in the right-hand sides of let/letseq next to a binding of the name they use;
+      dot paths (p.v read and set), eval and plain variables inside closures with the variable bound
+      by a maker's parameter or a let, with and without a global of the same name; a dot path as the
+      argument of a script function; validated by TLC against ZSem (SemTrace)
 """
 import semflow
 
@@ -12,8 +15,10 @@ PROP = "C03"
 
 
 def run():
-    return semflow.run_sem(PROP, "sem", "scoping,mixed", 1300, 40000,
-                           "seeded random programs of the scoping grammar (name pool x,y,z so that shadowing and capture collisions "
+    return semflow.run_sem(PROP, "sem", "scopeshapes,scoping,mixed", 1300, 40000,
+                           "let/letseq x {with, without a global} x {top level, function} x 8 placements of a closure in a right-hand side (before/after/between "
+                           "bindings of the name it uses, updating it, escaping, nested, over a parameter, a def inside a right-hand side); dot path / eval / plain "
+                           "variable in a closure x {global of the same name or none}; seeded random programs of the scoping grammar (name pool x,y,z so that shadowing and capture collisions "
                            "occur in almost every program; makers returning closures that update captured variables; closures "
                            "collected in a loop and called afterwards; closures in arrays and as arguments; recursion and tail calls)",
                            semflow.SEM_ASSUMPTIONS)
